@@ -231,6 +231,12 @@ func (x *Exec) atReturn(s *State, vals []Value) {
 		s.defers[i](s)
 	}
 	x.pathCount++
+	// named results take the returned values
+	for i, r := range x.results {
+		if r.Name() != "" && r.Name() != "_" && i < len(vals) {
+			s.vars[r] = vals[i]
+		}
+	}
 	end := x.fn.Body.Rbrace
 	mkEnv := func(extraLets []LetDef) *SpecEnv {
 		env := x.specEnvAt(s, end, 0)
